@@ -672,7 +672,19 @@ func (c *fnCtx) classifyCall(x *ast.CallExpr, v *visit) string {
 	switch {
 	case isPkgCall(x, "fmt", "Sprintf"):
 		c.addSprintfSite(x)
+		if numericFormat(x) {
+			// only %d / %f / %e / %g verbs between bytes of model/SqlSites.v numeric_alphabet: the text is numeric
+			return KFloat
+		}
 		return KBuilt
+	case (isPkgCall(x, "strings", "TrimRight") || isPkgCall(x, "strings", "TrimLeft") || isPkgCall(x, "strings", "Trim") ||
+		isPkgCall(x, "strings", "TrimSuffix") || isPkgCall(x, "strings", "TrimPrefix")) && len(x.Args) == 2:
+		// a substring of the first argument: the classes that only bound the alphabet of the text survive
+		switch k := c.classify(x.Args[0], v); k {
+		case KInt, KFloat, KDate, KDbHex, KIdent:
+			return k
+		}
+		return KUnclass
 	case isPkgCall(x, "strings", "Join") && len(x.Args) == 2:
 		return c.classifyElems(x.Args[0], v)
 	case isPkgCall(x, "strings", "ToLower"), isPkgCall(x, "strings", "ToUpper"), isPkgCall(x, "strings", "TrimSpace"):
@@ -868,6 +880,34 @@ func (c *fnCtx) addSprintfSite(x *ast.CallExpr) {
 	}
 	flush()
 	sites = append(sites, st)
+}
+
+// numericFormat: a Sprintf whose constant format has only numeric verbs and bytes of numeric_alphabet around them
+func numericFormat(x *ast.CallExpr) bool {
+	format, ok := strLit(x.Args[0])
+	if !ok {
+		return false
+	}
+	const numericAlphabet = "0123456789+-.eEpPxXabcdefABCDEFNIn"
+	verbs := 0
+	for i := 0; i < len(format); i++ {
+		ch := format[i]
+		if ch != '%' {
+			if strings.IndexByte(numericAlphabet, ch) < 0 {
+				return false
+			}
+			continue
+		}
+		i++
+		for i < len(format) && strings.IndexByte("+-0123456789.", format[i]) >= 0 {
+			i++
+		}
+		if i >= len(format) || strings.IndexByte("dfeg", format[i]) < 0 {
+			return false
+		}
+		verbs++
+	}
+	return verbs > 0 && verbs == len(x.Args)-1
 }
 
 func flattenConcat(e ast.Expr, out *[]ast.Expr) {
